@@ -161,3 +161,35 @@ def relations(ctx, body, bb):
         if f[0] == "truth":
             out.extend(rel_of_term(f[1], f[2]))
     return out
+
+
+def enumerate_paths(ctx, body, starts, stop=None, budget=60000):
+    """acyclic normal paths from each start block to a return (or a block where stop(bb) holds).
+    yields (tuple of blocks, frozenset of edge facts met on the way, ended_at_return)"""
+    left = [budget]
+    sf_cache = {}
+
+    def sf(bb):
+        if bb not in sf_cache:
+            sf_cache[bb] = ctx.pf.switch_facts(body, bb) if body.term(bb)["k"] == "switch" else {}
+        return sf_cache[bb]
+    out = []
+
+    def dfs(bb, path, facts):
+        left[0] -= 1
+        if left[0] < 0:
+            raise RuntimeError("path budget exhausted in %s" % body.id)
+        path = path + (bb,)
+        if stop and stop(bb):
+            out.append((path, frozenset(facts), False))
+            return
+        if body.term(bb)["k"] == "return":
+            out.append((path, frozenset(facts), True))
+            return
+        for s in body.succ(bb):
+            if s in path:
+                continue
+            dfs(s, path, facts | set(sf(bb).get(s, ())))
+    for st in starts:
+        dfs(st, (), set())
+    return out
